@@ -49,6 +49,10 @@ pub struct SynCase {
     pub wide: bool, // 32 columns (else 16)
     pub cells: Cells,
     pub thr: Thr,
+    /// the score buffer is a reused one: it first held this many MORE rows, every cell set to the
+    /// largest value of the element type, and was then resized down to the rows of this case
+    #[serde(default)]
+    pub prior_rows: usize,
 }
 
 fn expand_cells(c: &Cells, cols: usize) -> Vec<Vec<f32>> {
@@ -130,8 +134,9 @@ fn syn_strategy(tier: Tier) -> BoxedStrategy<SynCase> {
         1 => Just(Thr::AboveMax),
         2 => fl_strategy().prop_map(Thr::Value),
     ];
-    (prop_oneof![Just(Dtype::F32), Just(Dtype::U8)], prop_oneof![3 => Just(true), 1 => Just(false)], cells, thr)
-        .prop_map(|(dtype, wide, cells, thr)| SynCase { dtype, wide, cells, thr })
+    let prior = prop_oneof![2 => Just(0usize), 1 => 1usize..=3, 1 => 1usize..=80];
+    (prop_oneof![Just(Dtype::F32), Just(Dtype::U8)], prop_oneof![3 => Just(true), 1 => Just(false)], cells, thr, prior)
+        .prop_map(|(dtype, wide, cells, thr, prior_rows)| SynCase { dtype, wide, cells, thr, prior_rows })
         .boxed()
 }
 
@@ -152,8 +157,18 @@ where
     Reported { name, max: pli.max(s), argmax: pli.argmax(s), threshold: pli.threshold(s, t) }
 }
 
-fn build_scores<T: MatrixElement, C: PositiveLength>(cells: &[Vec<T>]) -> StripedScores<T, C> {
+fn build_scores<T: MatrixElement, C: PositiveLength>(cells: &[Vec<T>], prior: Option<(usize, T)>) -> StripedScores<T, C> {
     let mut s = StripedScores::<T, C>::empty();
+    if let Some((extra, value)) = prior {
+        // an earlier, taller use of the same buffer
+        let r = cells.len() + extra;
+        s.resize(r, r * C::USIZE);
+        for i in 0..r {
+            for j in 0..C::USIZE {
+                s.matrix_mut()[i][j] = value;
+            }
+        }
+    }
     s.resize(cells.len(), cells.len() * C::USIZE);
     for (i, r) in cells.iter().enumerate() {
         for j in 0..C::USIZE {
@@ -289,7 +304,7 @@ fn judge_offsets<T: MatrixElement + PartialOrd + std::fmt::Debug>(
     judge(cells, cols, t, &rep, info)
 }
 
-fn run_syn<T, C>(cells: &[Vec<T>], t: T, wide_backends: bool, info: &mut CaseInfo) -> Option<Failure>
+fn run_syn<T, C>(cells: &[Vec<T>], t: T, wide_backends: bool, prior: Option<(usize, T)>, info: &mut CaseInfo) -> Option<Failure>
 where
     T: MatrixElement + PartialOrd + std::fmt::Debug,
     C: PositiveLength,
@@ -298,7 +313,7 @@ where
     Pipeline<Protein, lightmotif::pli::platform::Sse2>: Maximum<T, C> + Threshold<T, C>,
 {
     let _ = wide_backends;
-    let s = build_scores::<T, C>(cells);
+    let s = build_scores::<T, C>(cells, prior);
     let cols = C::USIZE;
     let reps = vec![
         report("generic", &Pipeline::<Dna, _>::generic(), &s, t),
@@ -313,7 +328,7 @@ where
     None
 }
 
-fn run_syn_wide<T>(cells: &[Vec<T>], t: T, info: &mut CaseInfo) -> Option<Failure>
+fn run_syn_wide<T>(cells: &[Vec<T>], t: T, prior: Option<(usize, T)>, info: &mut CaseInfo) -> Option<Failure>
 where
     T: MatrixElement + PartialOrd + std::fmt::Debug,
     Pipeline<Dna, lightmotif::pli::platform::Generic>: Maximum<T, U32> + Threshold<T, U32>,
@@ -323,10 +338,10 @@ where
     Pipeline<Protein, lightmotif::pli::platform::Avx2>: Maximum<T, U32> + Threshold<T, U32>,
     Pipeline<Dna, lightmotif::pli::dispatch::Dispatch>: Maximum<T, U32> + Threshold<T, U32>,
 {
-    if let Some(f) = run_syn::<T, U32>(cells, t, true, info) {
+    if let Some(f) = run_syn::<T, U32>(cells, t, true, prior, info) {
         return Some(f);
     }
-    let s = build_scores::<T, U32>(cells);
+    let s = build_scores::<T, U32>(cells, prior);
     let mut reps = vec![
         report("avx2", &Pipeline::<Dna, _>::avx2().unwrap(), &s, t),
         report("avx2[protein]", &Pipeline::<Protein, _>::avx2().unwrap(), &s, t),
@@ -363,7 +378,7 @@ impl Sub for Synthetic {
         "synthetic"
     }
     fn rule(&self) -> &'static str {
-        "StripedScores<f32|u8> with 16 or 32 columns built cell by cell (explicit / seeded incl. all-negative, few-valued / spikes incl. +-inf, duplicated maxima) x threshold (a cell value, between two values, below min, above max, arbitrary); generic, sse2, avx2, dispatch forced to each arm, StripedScores::{max,argmax,threshold} and Scores::{max,argmax,threshold} compared with a scan of all cells; sweep = one spike at every column x rows {1,2,3,33} x both dtypes x {all-negative, zero} base; non-trivial = rows >= 2 and (maximum outside row 0 / column 0, or every cell negative, or duplicated maximum)"
+        "StripedScores<f32|u8> with 16 or 32 columns built cell by cell, half of them in a buffer that first held 1..80 more rows of the largest value and was resized down (explicit / seeded incl. all-negative, few-valued / spikes incl. +-inf, duplicated maxima) x threshold (a cell value, between two values, below min, above max, arbitrary); generic, sse2, avx2, dispatch forced to each arm, StripedScores::{max,argmax,threshold} and Scores::{max,argmax,threshold} compared with a scan of all cells; sweep = one spike at every column x rows {1,2,3,33} x both dtypes x {all-negative, zero} base; non-trivial = rows >= 2 and (maximum outside row 0 / column 0, or every cell negative, or duplicated maximum)"
     }
     fn cases(&self, tier: Tier) -> u64 {
         tier.pick(150_000, 5_000_000)
@@ -388,6 +403,7 @@ impl Sub for Synthetic {
                                     wide,
                                     cells: Cells::Spikes { rows, base: Fl(base), value: Fl(value), at: vec![(row, col)] },
                                     thr: Thr::Cell(row * 32 + col),
+                                    prior_rows: 0,
                                 });
                             }
                         }
@@ -404,6 +420,7 @@ impl Sub for Synthetic {
                     wide: true,
                     cells: Cells::Spikes { rows, base: Fl(3.0), value: Fl(200.0), at: vec![(row, col)] },
                     thr: Thr::Cell(row * 32 + col),
+                    prior_rows: 0,
                 });
             }
         }
@@ -413,12 +430,14 @@ impl Sub for Synthetic {
                 wide: true,
                 cells: Cells::Spikes { rows: 65536, base: Fl(3.0), value: Fl(200.0), at: vec![(65535, 17)] },
                 thr: Thr::AboveMax,
+                prior_rows: 0,
             });
             out.push(SynCase {
                 dtype: Dtype::F32,
                 wide: true,
                 cells: Cells::Spikes { rows: 65536, base: Fl(-3.0), value: Fl(-1.0), at: vec![(65535, 9)] },
                 thr: Thr::Cell(5),
+                prior_rows: 0,
             });
         }
         out
@@ -440,7 +459,8 @@ impl Sub for Synthetic {
                 info.class("f32");
                 info.class_if(all_neg, "all-negative");
                 info.nontrivial = rows >= 2 && (all_neg || n_max >= 2 || (first_max / cols != 0 && first_max % cols != 0));
-                let f = if case.wide { run_syn_wide::<f32>(&cells, thr, &mut info) } else { run_syn::<f32, U16>(&cells, thr, false, &mut info) };
+                let prior = if case.prior_rows > 0 { Some((case.prior_rows, f32::INFINITY)) } else { None };
+                let f = if case.wide { run_syn_wide::<f32>(&cells, thr, prior, &mut info) } else { run_syn::<f32, U16>(&cells, thr, false, prior, &mut info) };
                 f.or_else(|| {
                     // Scores (unstriped vector) API
                     let sc = Scores::new(flat.clone());
@@ -475,16 +495,18 @@ impl Sub for Synthetic {
                 let f8 = flat8.iter().position(|&x| x == mx8).unwrap_or(0);
                 info.nontrivial = rows >= 2 && (n8 >= 2 || (f8 / cols != 0 && f8 % cols != 0));
                 let t8 = thr.clamp(0.0, 255.0) as u8;
+                let prior = if case.prior_rows > 0 { Some((case.prior_rows, 255u8)) } else { None };
                 if case.wide {
-                    run_syn_wide::<u8>(&cells8, t8, &mut info)
+                    run_syn_wide::<u8>(&cells8, t8, prior, &mut info)
                 } else {
-                    run_syn::<u8, U16>(&cells8, t8, false, &mut info)
+                    run_syn::<u8, U16>(&cells8, t8, false, prior, &mut info)
                 }
             }
         };
         info.class_if(case.wide, "C=32");
         info.class_if(!case.wide, "C=16");
         info.class_if(rows == 0, "empty");
+        info.class_if(case.prior_rows > 0, "buffer-shrunk-from-a-taller-use");
         info.class_if(rows == 1, "rows=1");
         info.class_if(rows >= 70, "rows>=70");
         info.class_if(n_max >= 2, "duplicated-max");
